@@ -400,6 +400,24 @@ func (p *Prog) Field(q string) *types.Var {
 	}
 	for k := 0; k < st.NumFields(); k++ {
 		if st.Field(k).Name() == q[i+1:] {
+			// same name, but the state was wrapped into a small struct (count int64 -> count subscriberCount{n}):
+			// the anchor is the one field inside of the recorded type
+			if want, known := anchorFieldTypes[q]; known && !anchorTypeMatches(st.Field(k).Type(), want) {
+				if ws, isStruct := st.Field(k).Type().Underlying().(*types.Struct); isStruct {
+					var hit *types.Var
+					nhit := 0
+					for j := 0; j < ws.NumFields(); j++ {
+						if anchorTypeMatches(ws.Field(j).Type(), want) {
+							hit = ws.Field(j)
+							nhit++
+						}
+					}
+					if nhit == 1 {
+						p.fuzzy = append(p.fuzzy, q+" -> "+st.Field(k).Name()+"."+hit.Name()+" (wrapped)")
+						return hit
+					}
+				}
+			}
 			if p.fieldSeen == nil {
 				p.fieldSeen = map[string]string{}
 			}
@@ -718,6 +736,37 @@ func WithClosures(f *ssa.Function) []*ssa.Function {
 	out := []*ssa.Function{f}
 	for _, a := range f.AnonFuncs {
 		out = append(out, WithClosures(a)...)
+	}
+	return out
+}
+
+// flagFields returns the field(s) that hold the subscription's bit flags: the
+// flags field, or — when the bits were turned into separate bool fields — the
+// bool fields of the struct that are no anchors of their own.
+func (p *Prog) flagFields(q string) []*types.Var {
+	if f := p.Field(q); f != nil {
+		return []*types.Var{f}
+	}
+	i := strings.LastIndexByte(q, '.')
+	n := p.Named(q[:i])
+	if n == nil {
+		return nil
+	}
+	st, ok := n.Underlying().(*types.Struct)
+	if !ok {
+		return nil
+	}
+	var out []*types.Var
+	for k := 0; k < st.NumFields(); k++ {
+		f := st.Field(k)
+		if b, isB := f.Type().Underlying().(*types.Basic); isB && b.Kind() == types.Bool {
+			if _, named := anchorFieldTypes[q[:i+1]+f.Name()]; !named {
+				out = append(out, f)
+			}
+		}
+	}
+	if len(out) > 0 {
+		p.fuzzy = append(p.fuzzy, q+" -> separate bool fields")
 	}
 	return out
 }
